@@ -327,17 +327,18 @@ func runC19(c *sim.Ctx) {
 			var gated, closeReturnedA atomic.Bool
 			var readsA atomic.Int64
 			tr := &pg.Trace{P: fp}
-			failAt := 0
+			failAt, failLate := 0, 0
 			if mode == 2 {
 				// dry run through the same path to learn how many page reads one execution
 				// makes, so that the fault always lands inside it
-				nreads := 30
+				nreads, qreads := 30, 0
 				if fp0, err := sdb.VerifFilePager(path); err == nil {
 					tr0 := &pg.Trace{P: fp0}
 					if low0, err := sdb.VerifOpen(tr0, path+"-journal"); err == nil {
 						dbh0 := sqlittle.VerifWrap(low0)
 						st0 := drv.VerifStatement(dbh0, query)
 						if r0, err := st0.QueryContext(context.Background(), nil); err == nil {
+							qreads = tr0.ReadCount()
 							dest := make([]sqldriver.Value, len(r0.Columns()))
 							for r0.Next(dest) == nil {
 							}
@@ -354,6 +355,11 @@ func runC19(c *sim.Ctx) {
 					nreads = 1
 				}
 				failAt = 1 + s.Draw(nreads, "failat")
+				if nreads > qreads && s.Chance(2, 3, "fault-in-scan") {
+					// land the fault in the producer's scan, not in QueryContext's own column lookup
+					failLate = 1 + s.Draw(nreads-qreads, "failat-scan")
+					failAt = 0
+				}
 				c.Fault("read-error-mid-scan")
 			}
 			tr.Event = func(kind string, n int, err error) {
@@ -392,6 +398,11 @@ func runC19(c *sim.Ctx) {
 				return
 			}
 			rows := rowsI.(*drv.Rows)
+			if failLate > 0 {
+				// one P: the producer goroutine has not run yet
+				tr.ArmFailAfter(failLate)
+			}
+			readAll := mode == 2 && s.Chance(1, 2, "readall")
 			rescue = func() {
 				gated.Store(false)
 				for k := 0; k < 1000000; k++ {
@@ -414,7 +425,7 @@ func runC19(c *sim.Ctx) {
 					}
 				}
 			}
-			if s.Chance(1, 6, "immediate-close") {
+			if !readAll && s.Chance(1, 6, "immediate-close") {
 				// Close (or cancel+Close) before the producer goroutine was ever scheduled
 				if s.Chance(1, 2, "cancel-first") {
 					cancel()
@@ -473,9 +484,8 @@ func runC19(c *sim.Ctx) {
 			// the producer was started ungated; gate it now
 			gated.Store(true)
 			steps := 3 + s.Draw(3*len(native)+12, "steps")
-			// with a fault armed, half of the schedules read to the end (the consumer that
+			// (with a fault armed, half of the schedules read to the end: the consumer that
 			// must not be told "end of rows" quietly)
-			readAll := mode == 2 && s.Chance(1, 2, "readall")
 			closed := false
 			for i := 0; i < steps && !ended && !closed; i++ {
 				// enabled actions (never cancel while a Next is outstanding, never Next after cancel: see DESIGN §5.4)
@@ -545,7 +555,7 @@ func runC19(c *sim.Ctx) {
 			}
 			collect()
 			if !closed {
-				if !cancelled && !ended && !pendingNext {
+				if !cancelled && !pendingNext {
 					// read to the end: the complete result must match
 					for !ended {
 						doNext()
